@@ -26,14 +26,31 @@ impl Decimal {
         Decimal { coef, exp }
     }
 
+    /// Largest coefficient the multipleOf matcher can handle: it keeps a running
+    /// remainder `r < coef` and computes `r * 10 + digit` in `u32`.
+    pub const MAX_COEF: u32 = (u32::MAX - 9) / 10;
+
+    #[allow(dead_code)]
     pub fn lcm(&self, other: &Decimal) -> Decimal {
+        self.checked_lcm(other)
+            .expect("multipleOf values are too large to be combined")
+    }
+
+    /// Least common multiple, or `None` if it does not fit.
+    pub fn checked_lcm(&self, other: &Decimal) -> Option<Decimal> {
         if self.coef == 0 || other.coef == 0 {
-            return Decimal::new(0, 0);
+            return Some(Decimal::new(0, 0));
         }
-        let a = self.coef * 10u32.pow(other.exp.saturating_sub(self.exp));
-        let b = other.coef * 10u32.pow(self.exp.saturating_sub(other.exp));
-        let coef = (a * b) / gcd(a, b);
-        Decimal::new(coef, self.exp.max(other.exp))
+        let scale = |coef: u32, by: u32| -> Option<u64> {
+            10u64.checked_pow(by)?.checked_mul(coef as u64)
+        };
+        let a = scale(self.coef, other.exp.saturating_sub(self.exp))?;
+        let b = scale(other.coef, self.exp.saturating_sub(other.exp))?;
+        let coef = (a / gcd64(a, b)).checked_mul(b)?;
+        if coef > Self::MAX_COEF as u64 {
+            return None;
+        }
+        Some(Decimal::new(coef as u32, self.exp.max(other.exp)))
     }
 
     pub fn to_f64(&self) -> f64 {
@@ -54,7 +71,7 @@ impl TryFrom<f64> for Decimal {
             value *= 10.0;
             exp += 1;
         }
-        if value > u32::MAX as f64 {
+        if value > Decimal::MAX_COEF as f64 {
             return Err(anyhow!(
                 "Value for 'multipleOf' has too many digits: {}",
                 value
@@ -64,6 +81,15 @@ impl TryFrom<f64> for Decimal {
     }
 }
 
+fn gcd64(a: u64, b: u64) -> u64 {
+    if b == 0 {
+        a
+    } else {
+        gcd64(b, a % b)
+    }
+}
+
+#[allow(dead_code)]
 fn gcd(a: u32, b: u32) -> u32 {
     if b == 0 {
         a
